@@ -94,12 +94,6 @@ class Management:
         if address in self._connections:
             raise ManagementConnectionError(f"Connection to {address} already exists.")
         p2p_connection = P2PConnection(self.xknx, address, rate_limit)
-        try:
-            await p2p_connection.connect()
-        except ManagementConnectionError as exc:
-            logger.error("Establishing connection to %s failed: %s", address, exc)
-            raise
-        self._connections[address] = p2p_connection
 
         def remove_connection_hook() -> None:
             """Remove connection from management."""
@@ -109,6 +103,15 @@ class Management:
                 logger.error("Connection to %s already closed.", address)
 
         p2p_connection.disconnect_hook = remove_connection_hook
+        # registered before T_Connect is sent: the peer's answer (e.g. a refusing
+        # T_Disconnect) may be processed before the send returns
+        self._connections[address] = p2p_connection
+        try:
+            await p2p_connection.connect()
+        except ManagementConnectionError as exc:
+            logger.error("Establishing connection to %s failed: %s", address, exc)
+            del self._connections[address]
+            raise
         return p2p_connection
 
     async def disconnect(self, address: IndividualAddress) -> None:
@@ -240,17 +243,21 @@ class P2PConnection:
             source_address=self.xknx.current_address,
             tpci=TConnect(),
         )
+        # set before sending, so that a T_Disconnect processed while the send is
+        # still awaited is not overwritten afterwards
+        self._connected = True
         try:
             await self.xknx.cemi_handler.send_telegram(connect)
         except ConfirmationError as exc:
+            self._connected = False
             self._response_waiter.cancel()
             raise ManagementConnectionError(
                 f"Connection to {self.address} failed: {exc}"
             ) from exc
         except CommunicationError as exc:
+            self._connected = False
             self._response_waiter.cancel()
             raise ManagementConnectionError("Error while sending Telegram") from exc
-        self._connected = True
 
     async def disconnect(self) -> None:
         """Disconnect from the KNX device. Sends T_Disconnect-PDU (= A_Disconnect, see connect())."""
